@@ -441,4 +441,426 @@ example : durationPeriod ⟨⟨2020, 1, 29⟩, 52200⟩ .inConn .W 2 =
   decide +kernel
 
 
+/-! ### ISO week facts used by the week parsers -/
+
+/-- a day inside the ISO year `Y` (between its week-1 Monday and the next one) has ISO year `Y` and ISO week
+`(ord − week1Monday) / 7 + 1` -/
+theorem isoWeek_of_ord (x : Date) (hv : x.valid = true) (Y : Nat) (hY : 1 ≤ Y)
+    (h1 : isoWeek1Monday Y ≤ x.ord) (h2 : x.ord < isoWeek1Monday (Y + 1)) :
+    (isoCalendar x).1 = Y ∧ (isoCalendar x).2.1 = (x.ord - isoWeek1Monday Y) / 7 + 1 ∧
+    (isoCalendar x).2.2 = (x.ord - isoWeek1Monday Y) % 7 + 1 := by
+  have s := isoCalendar_spec x hv
+  simp only at s
+  have hy : (isoCalendar x).1 = Y :=
+    isoYear_unique _ _ x.ord s.2.2.2.2.2.1 hY (by omega) s.2.2.2.2.1 h1 h2
+  rw [hy] at s
+  refine ⟨hy, ?_, ?_⟩ <;> omega
+
+/-- January 1st: weekday (Monday = 0) `wd`; ISO week 1 of the year starts `wd` days earlier when `wd ≤ 3`, else
+`7 − wd` days later; and `isocalendar()[1]` of January 1st is 1 exactly when `wd ≤ 3`. -/
+theorem jan1_week (y : Nat) (h1 : 1 ≤ y) (h2 : y ≤ 9999) :
+    let J : Date := ⟨y, 1, 1⟩
+    (weekdayOrd J.ord ≤ 3 → isoWeek1Monday y + weekdayOrd J.ord = J.ord ∧ (isoCalendar J).2.1 = 1) ∧
+    (3 < weekdayOrd J.ord → isoWeek1Monday y + weekdayOrd J.ord = J.ord + 7 ∧ (isoCalendar J).2.1 ≠ 1) := by
+  intro J
+  have vJ : J.valid = true := valid_jan1 y h1 h2
+  have w := isoWeek1Monday_spec y h1
+  have wn := isoWeek1Monday_succ y h1
+  have jo : J.ord = daysBeforeYear y + 1 := jan1_ord y
+  have wdl := weekdayOrd_lt J.ord
+  have hdef : isoWeek1Monday y = (if weekdayOrd J.ord > 3 then J.ord - weekdayOrd J.ord + 7 else J.ord - weekdayOrd J.ord) := by
+    unfold isoWeek1Monday weekdayOrd; simp only; rfl
+  have jpos : weekdayOrd J.ord ≤ J.ord := by
+    by_cases c : y = 1
+    · subst c; decide
+    · have := dby_ge y (by omega); omega
+  constructor
+  · intro hle
+    rw [if_neg (by omega)] at hdef
+    have a : isoWeek1Monday y + weekdayOrd J.ord = J.ord := by omega
+    have k := isoWeek_of_ord J vJ y h1 (by omega) (by omega)
+    exact ⟨a, by rw [k.2.1]; omega⟩
+  · intro hgt
+    rw [if_pos hgt] at hdef
+    have a : isoWeek1Monday y + weekdayOrd J.ord = J.ord + 7 := by omega
+    refine ⟨a, ?_⟩
+    -- January 1st lies before week 1 of `y`: it is in the last week (52 or 53) of `y − 1`
+    have y2 : 2 ≤ y := by
+      by_cases c : y = 1
+      · subst c; revert hgt; decide
+      · omega
+    have wp := isoWeek1Monday_succ (y - 1) (by omega)
+    have e : y - 1 + 1 = y := by omega
+    rw [e] at wp
+    have k := isoWeek_of_ord J vJ (y - 1) (by omega) (by omega) (by rw [e]; omega)
+    rw [k.2.1]; omega
+
+/-- the Thursday of the week containing January 1st: its ISO week is 1 exactly when January 1st is a Monday..Thursday -/
+theorem jan1_thursday_week (y : Nat) (h1 : 1 ≤ y) (h2 : y ≤ 9999) (th : Date) (hv : th.valid = true)
+    (ho : (th.ord : Int) = mondayOrd (⟨y, 1, 1⟩ : Date).ord + 3) :
+    (weekdayOrd (⟨y, 1, 1⟩ : Date).ord ≤ 3 → (isoCalendar th).2.1 = 1 ∧ th.ord = isoWeek1Monday y + 3) ∧
+    (3 < weekdayOrd (⟨y, 1, 1⟩ : Date).ord → (isoCalendar th).2.1 ≠ 1 ∧ th.ord + 4 = isoWeek1Monday y) := by
+  have jw := jan1_week y h1 h2
+  simp only at jw
+  have m := mondayOrd_spec (⟨y, 1, 1⟩ : Date).ord (ord_range _ (valid_jan1 y h1 h2)).1
+  have wn := isoWeek1Monday_succ y h1
+  constructor
+  · intro hle
+    have a := (jw.1 hle).1
+    have k := isoWeek_of_ord th hv y h1 (by omega) (by omega)
+    exact ⟨by rw [k.2.1]; omega, by omega⟩
+  · intro hgt
+    have a := (jw.2 hgt).1
+    have y2 : 2 ≤ y := by
+      by_cases c : y = 1
+      · subst c; revert hgt; decide
+      · omega
+    have wp := isoWeek1Monday_succ (y - 1) (by omega)
+    have e : y - 1 + 1 = y := by omega
+    rw [e] at wp
+    have k := isoWeek_of_ord th hv (y - 1) (by omega) (by omega) (by rw [e]; omega)
+    exact ⟨by rw [k.2.1]; omega, by omega⟩
+
+/-! ## `__parse_which_week` ("week 12") -/
+
+/-- "week N" of the reference's year: `[Monday of ISO week N, + 7 days)` — the Monday is
+`_isoweek1monday(year) + 7 (N − 1)` — with TIMEX `YYYY-WNN`; and whenever that Monday still lies in the ISO year
+(week N exists) `isocalendar()` of the begin is exactly `(year, N, 1)`, i.e. the TIMEX names the week of the values. -/
+theorem which_week_spec (R : DateTime) (hv : R.date.valid = true) (num : Nat) (hn : 1 ≤ num) (t : Str) (b e pb pe : DateTime)
+    (h : whichWeek R num = .ok t b e pb pe) :
+    pb = b ∧ pe = e ∧ b.date.valid = true ∧ e.date.valid = true ∧
+    b.date.ord = isoWeek1Monday R.date.y + 7 * (num - 1) ∧ e.date.ord = b.date.ord + 7 ∧
+    t = pad4 R.date.y ++ [45, 87] ++ pad2 num ∧
+    (b.date.ord < isoWeek1Monday (R.date.y + 1) → isoCalendar b.date = (R.date.y, num, 1)) := by
+  have hvy := (valid_iff R.date).1 hv
+  have vJ := valid_jan1 R.date.y hvy.1 hvy.2.1
+  unfold whichWeek at h
+  simp only [mk_valid R.date.y 1 1 vJ, Int.toNat_natCast] at h
+  cases h1 : this ⟨⟨R.date.y, 1, 1⟩, 0⟩ 4 with
+  | none => simp [h1, ofOpt] at h
+  | some th =>
+  have s1 := this_spec ⟨⟨R.date.y, 1, 1⟩, 0⟩ vJ 4 th h1
+  rw [show target 4 = 4 by decide] at s1
+  have tw := jan1_thursday_week R.date.y hvy.1 hvy.2.1 th.date s1.1 (by have := s1.2.2; simp only at this; omega)
+  have wdl := weekdayOrd_lt (⟨R.date.y, 1, 1⟩ : Date).ord
+  -- the begin, whichever branch
+  have key : ∀ r : DateTime, DateUtils.addDays th (7 * (if (isoCalendar th.date).2.1 = 1 then (num : Int) - 1 else num) - 3) = some r →
+      r.date.valid = true ∧ r.date.ord = isoWeek1Monday R.date.y + 7 * (num - 1) := by
+    intro r hr
+    have sr := addDays_spec th s1.1 _ r hr
+    refine ⟨sr.1, ?_⟩
+    by_cases c : weekdayOrd (⟨R.date.y, 1, 1⟩ : Date).ord ≤ 3
+    · have a := tw.1 c
+      rw [if_pos a.1] at sr
+      omega
+    · have a := tw.2 (by omega)
+      rw [if_neg a.1] at sr
+      omega
+  simp only [h1, Option.bind_eq_bind, Option.bind_some, Option.pure_def, beq_iff_eq] at h
+  cases h2 : DateUtils.addDays th (7 * (if (isoCalendar th.date).2.1 = 1 then (num : Int) - 1 else num) - 3) with
+  | none => simp [h2, ofOpt] at h
+  | some r =>
+  have kr := key r h2
+  simp only [h2, Option.bind_some] at h
+  cases h3 : DateUtils.addDays r 7 with
+  | none => simp [h3, ofOpt] at h
+  | some e0 =>
+  have s3 := addDays_spec r kr.1 7 e0 h3
+  simp only [h3, Option.bind_some, ofOpt, Option.getD_some, Res.ok.injEq] at h
+  obtain ⟨ht, hb, he, hpb, hpe⟩ := h
+  subst hb he hpb hpe
+  refine ⟨rfl, rfl, kr.1, s3.1, kr.2, by omega, ht.symm, ?_⟩
+  intro hlt
+  have k := isoWeek_of_ord r.date kr.1 R.date.y hvy.1 (by omega) hlt
+  have e1 : (r.date.ord - isoWeek1Monday R.date.y) / 7 + 1 = num := by omega
+  have e2 : (r.date.ord - isoWeek1Monday R.date.y) % 7 + 1 = 1 := by omega
+  rw [Prod.ext_iff, Prod.ext_iff]
+  exact ⟨k.1, by rw [k.2.1, e1], by rw [k.2.2, e2]⟩
+
+example : whichWeek ⟨⟨2020, 1, 29⟩, 52200⟩ 12 =
+    .ok ("2020-W12".toList.map Char.toNat) ⟨⟨2020, 3, 16⟩, 0⟩ ⟨⟨2020, 3, 23⟩, 0⟩ ⟨⟨2020, 3, 16⟩, 0⟩ ⟨⟨2020, 3, 23⟩, 0⟩ := by
+  decide +kernel
+
+/-! ## `_parse_week_of_year` ("first / third week of 2020", "… of next year") -/
+
+theorem mondayOrd_add7 (n : Nat) (h : 1 ≤ n) : mondayOrd (n + 7) = mondayOrd n + 7 := by
+  unfold mondayOrd weekdayOrd; omega
+
+/-- A numbered week of a year (not "last"): the values are `[Monday of ISO week 1 + 7 (c − 1), + 7 days)`, i.e. ISO
+week `c` of that year (`isocalendar()` of the begin is `(year, c, 1)` whenever week `c` exists) — but the TIMEX is
+written with the ISO week number **of January 1st** (`week_of_year(first_day)`), not with `c`. -/
+theorem week_of_year_numbered_spec (R : DateTime) (y : Nat) (h1 : 1 ≤ y) (h2 : y ≤ 9999) (c : Nat) (hc : 1 ≤ c) (sw : Int)
+    (t : Str) (b e pb pe : DateTime) (h : weekOfYear R false c (some (y : Int)) sw = .ok t b e pb pe) :
+    pb = b ∧ pe = e ∧ b.date.valid = true ∧ e.date.valid = true ∧
+    b.date.ord = isoWeek1Monday y + 7 * (c - 1) ∧ e.date.ord = b.date.ord + 7 ∧
+    t = pad4 y ++ [45, 87] ++ pad2 (isoCalendar ⟨y, 1, 1⟩).2.1 ∧
+    (b.date.ord < isoWeek1Monday (y + 1) → isoCalendar b.date = (y, c, 1)) := by
+  have vJ := valid_jan1 y h1 h2
+  have jw := jan1_week y h1 h2
+  simp only at jw
+  have wdl := weekdayOrd_lt (⟨y, 1, 1⟩ : Date).ord
+  have mJ := mondayOrd_spec (⟨y, 1, 1⟩ : Date).ord (ord_range _ vJ).1
+  unfold weekOfYear at h
+  simp only [mk_valid y 1 1 vJ, Int.toNat_natCast, Bool.false_eq_true, if_false, Option.bind_eq_bind, Option.pure_def] at h
+  cases h0 : this ⟨⟨y, 1, 1⟩, 0⟩ 1 with
+  | none => simp [h0, ofOpt] at h
+  | some m0 =>
+  have s0 := this_spec ⟨⟨y, 1, 1⟩, 0⟩ vJ 1 m0 h0
+  rw [show target 1 = 1 by decide] at s0
+  simp only [h0, Option.bind_some] at h
+  -- the Monday of ISO week 1, whichever branch
+  have hm : ∀ m : DateTime, (if ((isoCalendar (⟨y, 1, 1⟩ : Date)).2.1 != 1) = true then
+        (addDelta ⟨⟨y, 1, 1⟩, 0⟩ 0 0 7).bind fun x => this x 1 else some m0) = some m →
+      m.date.valid = true ∧ m.date.ord = isoWeek1Monday y := by
+    intro m hm
+    by_cases cw : weekdayOrd (⟨y, 1, 1⟩ : Date).ord ≤ 3
+    · have a := jw.1 cw
+      have ne : ((isoCalendar (⟨y, 1, 1⟩ : Date)).2.1 != 1) = false := by simp [a.2]
+      rw [ne] at hm
+      simp only [Bool.false_eq_true, if_false, Option.some.injEq] at hm
+      subst hm
+      exact ⟨s0.1, by have := s0.2.2; simp only at this; omega⟩
+    · have a := jw.2 (by omega)
+      have ne : ((isoCalendar (⟨y, 1, 1⟩ : Date)).2.1 != 1) = true := by simp [a.2]
+      rw [ne] at hm
+      simp only [if_true, addDelta_days ⟨⟨y, 1, 1⟩, 0⟩ vJ] at hm
+      cases h7 : DateUtils.addDays ⟨⟨y, 1, 1⟩, 0⟩ 7 with
+      | none => simp [h7] at hm
+      | some x =>
+        have s7 := addDays_spec ⟨⟨y, 1, 1⟩, 0⟩ vJ 7 x h7
+        simp only [h7, Option.bind_some] at hm
+        have sm := this_spec x s7.1 1 m hm
+        rw [show target 1 = 1 by decide] at sm
+        have e7 : x.date.ord = (⟨y, 1, 1⟩ : Date).ord + 7 := by have := s7.2.1; simp only at this; omega
+        refine ⟨sm.1, ?_⟩
+        have := sm.2.2
+        rw [e7, mondayOrd_add7 _ (ord_range _ vJ).1] at this
+        omega
+  cases hm0 : (if ((isoCalendar (⟨y, 1, 1⟩ : Date)).2.1 != 1) = true then
+        (addDelta ⟨⟨y, 1, 1⟩, 0⟩ 0 0 7).bind fun x => this x 1 else some m0) with
+  | none => rw [hm0] at h; simp [ofOpt] at h
+  | some m =>
+  have km := hm m hm0
+  rw [hm0] at h
+  simp only [Option.bind_some, addDelta_days m km.1] at h
+  cases ht : DateUtils.addDays m (7 * ((c : Int) - 1)) with
+  | none => simp [ht, ofOpt] at h
+  | some tm =>
+  have st := addDays_spec m km.1 _ tm ht
+  simp only [ht, Option.bind_some, addDelta_days tm st.1] at h
+  cases he : DateUtils.addDays tm 7 with
+  | none => simp [he, ofOpt] at h
+  | some e0 =>
+  have se := addDays_spec tm st.1 7 e0 he
+  simp only [he, Option.bind_some, ofOpt, Option.getD_some, Res.ok.injEq] at h
+  obtain ⟨htx, hb, he', hpb, hpe⟩ := h
+  subst hb he' hpb hpe
+  have bo : tm.date.ord = isoWeek1Monday y + 7 * (c - 1) := by omega
+  refine ⟨rfl, rfl, st.1, se.1, bo, by omega, htx.symm, ?_⟩
+  intro hlt
+  have k := isoWeek_of_ord tm.date st.1 y h1 (by omega) hlt
+  have e1 : (tm.date.ord - isoWeek1Monday y) / 7 + 1 = c := by omega
+  have e2 : (tm.date.ord - isoWeek1Monday y) % 7 + 1 = 1 := by omega
+  rw [Prod.ext_iff, Prod.ext_iff]
+  exact ⟨k.1, by rw [k.2.1, e1], by rw [k.2.2, e2]⟩
+
+/-- The TIMEX of a numbered week is right only for the FIRST week of a year whose January 1st is a Monday..Thursday. -/
+theorem week_of_year_timex_partial (y : Nat) (h1 : 1 ≤ y) (h2 : y ≤ 9999)
+    (g : weekdayOrd (⟨y, 1, 1⟩ : Date).ord ≤ 3) : (isoCalendar ⟨y, 1, 1⟩).2.1 = 1 :=
+  ((jan1_week y h1 h2).1 g).2
+
+/-- Negative witnesses: "the third week of next year" asked in 2020 → `2021-W53` for 2021-01-18 .. 25 (ISO 2021-W03);
+"first week of 2021" → `2021-W53` for 2021-01-04 .. 11 (ISO 2021-W01); "third week of 2020" → `2020-W01`. -/
+theorem week_of_year_timex_fails :
+    weekOfYear ⟨⟨2020, 1, 29⟩, 0⟩ false 3 none 1 =
+      .ok ("2021-W53".toList.map Char.toNat) ⟨⟨2021, 1, 18⟩, 0⟩ ⟨⟨2021, 1, 25⟩, 0⟩ ⟨⟨2021, 1, 18⟩, 0⟩ ⟨⟨2021, 1, 25⟩, 0⟩ ∧
+    isoCalendar ⟨2021, 1, 18⟩ = (2021, 3, 1) ∧
+    weekOfYear ⟨⟨2020, 1, 29⟩, 0⟩ false 1 (some 2021) (-10) =
+      .ok ("2021-W53".toList.map Char.toNat) ⟨⟨2021, 1, 4⟩, 0⟩ ⟨⟨2021, 1, 11⟩, 0⟩ ⟨⟨2021, 1, 4⟩, 0⟩ ⟨⟨2021, 1, 11⟩, 0⟩ ∧
+    isoCalendar ⟨2021, 1, 4⟩ = (2021, 1, 1) ∧
+    weekOfYear ⟨⟨2020, 1, 29⟩, 0⟩ false 3 (some 2020) (-10) =
+      .ok ("2020-W01".toList.map Char.toNat) ⟨⟨2020, 1, 13⟩, 0⟩ ⟨⟨2020, 1, 20⟩, 0⟩ ⟨⟨2020, 1, 13⟩, 0⟩ ⟨⟨2020, 1, 20⟩, 0⟩ := by
+  refine ⟨?_, ?_, ?_, ?_, ?_⟩ <;> decide +kernel
+
+/-- "last week of 2015": by construction the TIMEX week number is `isocalendar()[1]` of the begin. -/
+example : weekOfYear ⟨⟨2020, 1, 29⟩, 0⟩ true 0 (some 2015) (-10) =
+    .ok ("2015-W53".toList.map Char.toNat) ⟨⟨2015, 12, 28⟩, 0⟩ ⟨⟨2016, 1, 4⟩, 0⟩ ⟨⟨2015, 12, 28⟩, 0⟩ ⟨⟨2016, 1, 4⟩, 0⟩ := by
+  decide +kernel
+
+
+/-! ## `_compute_date`, `_get_week_of_month`, `_parse_week_of_month` -/
+
+/-- `_compute_date(cardinal, weekday, month, year)` is the `cardinal`-th `weekday` (1 = Monday .. 7 = Sunday) on or
+after the 1st of the month: `ord(1st) + ((weekday − isoweekday(1st)) mod 7) + 7 (cardinal − 1)`, at midnight. -/
+theorem compute_date_spec (c : Int) (wd m : Nat) (y : Nat) (hw1 : 1 ≤ wd) (hw7 : wd ≤ 7)
+    (hv : (⟨y, m, 1⟩ : Date).valid = true) (r : DateTime) (h : computeDate c wd m (y : Int) = some r) :
+    r.date.valid = true ∧ r.secs = 0 ∧
+    (r.date.ord : Int) = (⟨y, m, 1⟩ : Date).ord + (((wd : Int) - isoWeekdayOrd (⟨y, m, 1⟩ : Date).ord) % 7) + 7 * (c - 1) ∧
+    isoWeekdayOrd r.date.ord = wd := by
+  unfold computeDate at h
+  rw [isValidDate_of_valid ⟨y, m, 1⟩ hv] at h
+  simp only [if_true, Int.toNat_natCast] at h
+  have mF := mondayOrd_spec (⟨y, m, 1⟩ : Date).ord (ord_range _ hv).1
+  have wl := weekdayOrd_lt (⟨y, m, 1⟩ : Date).ord
+  have tg : target wd = wd := by unfold target; rw [if_pos (by omega)]
+  have wd0 : (wd == 0) = false := by simp; omega
+  cases h0 : this ⟨⟨y, m, 1⟩, 0⟩ wd with
+  | none => simp [h0] at h
+  | some f0 =>
+  have s0 := this_spec ⟨⟨y, m, 1⟩, 0⟩ hv wd f0 h0
+  rw [tg] at s0
+  simp only [h0, Option.bind_some, wd0, Bool.false_eq_true, if_false] at h
+  have iw : (⟨y, m, 1⟩ : Date).isoWeekday = weekdayOrd (⟨y, m, 1⟩ : Date).ord + 1 := rfl
+  have iwo : isoWeekdayOrd (⟨y, m, 1⟩ : Date).ord = weekdayOrd (⟨y, m, 1⟩ : Date).ord + 1 := rfl
+  have fin : ∀ fw : DateTime, fw.date.valid = true → fw.secs = 0 →
+      (fw.date.ord : Int) = (⟨y, m, 1⟩ : Date).ord + (((wd : Int) - isoWeekdayOrd (⟨y, m, 1⟩ : Date).ord) % 7) →
+      addDelta fw 0 0 (7 * (c - 1)) = some r →
+      (r.date.valid = true ∧ r.secs = 0 ∧
+      (r.date.ord : Int) = (⟨y, m, 1⟩ : Date).ord + (((wd : Int) - isoWeekdayOrd (⟨y, m, 1⟩ : Date).ord) % 7) + 7 * (c - 1) ∧
+      isoWeekdayOrd r.date.ord = wd) := by
+    intro fw vf sf of hr
+    rw [addDelta_days fw vf] at hr
+    have sr := addDays_spec fw vf _ r hr
+    have ro : (r.date.ord : Int) = (⟨y, m, 1⟩ : Date).ord + (((wd : Int) - isoWeekdayOrd (⟨y, m, 1⟩ : Date).ord) % 7) + 7 * (c - 1) := by
+      rw [sr.2.1, of]
+    refine ⟨sr.1, by rw [sr.2.2, sf], ro, ?_⟩
+    have r1 := (ord_range r.date sr.1).1
+    rw [iwo] at ro
+    unfold isoWeekdayOrd
+    unfold weekdayOrd at ro mF wl
+    omega
+  by_cases cl : wd < (⟨y, m, 1⟩ : Date).isoWeekday
+  · rw [if_pos cl] at h
+    cases hn : next ⟨⟨y, m, 1⟩, 0⟩ wd with
+    | none => simp [hn] at h
+    | some f1 =>
+      have s1 := next_spec ⟨⟨y, m, 1⟩, 0⟩ hv wd f1 hn
+      rw [tg] at s1
+      simp only [hn, Option.bind_some] at h
+      refine fin f1 s1.1 s1.2.1 ?_ h
+      rw [iw] at cl; rw [iwo]
+      have := s1.2.2; simp only at this
+      omega
+  · rw [if_neg cl] at h
+    simp only [Option.bind_some] at h
+    refine fin f0 s0.1 s0.2.1 ?_ h
+    rw [iw] at cl; rw [iwo]
+    have := s0.2.2; simp only at this
+    omega
+
+/-- Whatever the inputs: when `_get_week_of_month` yields a result, both the future and the past value are
+`[a Monday, that Monday + 7 days)` of valid dates at midnight (so begin < end). -/
+theorem week_of_month_ranges (R : DateTime) (c : Int) (m : Nat) (y : Nat) (noYear : Bool) (h2 : 2 ≤ y) (h9 : y ≤ 9998)
+    (hm1 : 1 ≤ m) (hm2 : m ≤ 12) (t : Str) (fb fe pb pe : DateTime)
+    (h : getWeekOfMonth R c m (y : Int) noYear = .ok t fb fe pb pe) :
+    fb.date.valid = true ∧ fe.date.valid = true ∧ pb.date.valid = true ∧ pe.date.valid = true ∧
+    isoWeekdayOrd fb.date.ord = 1 ∧ isoWeekdayOrd pb.date.ord = 1 ∧
+    fe.date.ord = fb.date.ord + 7 ∧ pe.date.ord = pb.date.ord + 7 := by
+  have vy : ∀ y', 1 ≤ y' → y' ≤ 9999 → (⟨y', m, 1⟩ : Date).valid = true := fun y' a b => valid_first y' m a b hm1 hm2
+  -- a Monday stays a Monday after stepping back one week
+  have back : ∀ (d r : DateTime), d.date.valid = true → isoWeekdayOrd d.date.ord = 1 →
+      (if d.date.m ≠ m then addDelta d 0 0 (-7) else some d) = some r → r.date.valid = true ∧ isoWeekdayOrd r.date.ord = 1 := by
+    intro d r vd md hr
+    by_cases cm : d.date.m ≠ m
+    · rw [if_pos cm, addDelta_days d vd] at hr
+      have s := addDays_spec d vd (-7) r hr
+      refine ⟨s.1, ?_⟩
+      have r1 := (ord_range r.date s.1).1
+      unfold isoWeekdayOrd at md ⊢; omega
+    · rw [if_neg cm] at hr; simp only [Option.some.injEq] at hr; subst hr; exact ⟨vd, md⟩
+  have cd : ∀ (c' : Int) (y' : Nat) (r : DateTime), 1 ≤ y' → y' ≤ 9999 → computeDate c' 1 m (y' : Int) = some r →
+      r.date.valid = true ∧ isoWeekdayOrd r.date.ord = 1 := by
+    intro c' y' r a b hr
+    have s := compute_date_spec c' 1 m y' (by omega) (by omega) (vy y' a b) r hr
+    exact ⟨s.1, s.2.2.2⟩
+  have plus7 : ∀ (d r : DateTime), d.date.valid = true → addDelta d 0 0 7 = some r → r.date.valid = true ∧ r.date.ord = d.date.ord + 7 := by
+    intro d r vd hr
+    rw [addDelta_days d vd] at hr
+    have s := addDays_spec d vd 7 r hr
+    exact ⟨s.1, by omega⟩
+  unfold getWeekOfMonth at h
+  simp only [Option.bind_eq_bind, Option.pure_def] at h
+  cases h0 : computeDate c 1 m (y : Int) with
+  | none => simp [h0, ofOpt] at h
+  | some seed0 =>
+  have k0 := cd c y seed0 (by omega) (by omega) h0
+  simp only [h0, Option.bind_some] at h
+  cases h1 : (if seed0.date.m ≠ m then Option.map (fun s => (c - 1, s)) (addDelta seed0 0 0 (-7)) else some (c, seed0)) with
+  | none => rw [h1] at h; simp [ofOpt] at h
+  | some cs =>
+  rw [h1] at h
+  simp only [Option.bind_some] at h
+  have ks : cs.2.date.valid = true ∧ isoWeekdayOrd cs.2.date.ord = 1 := by
+    by_cases cm : seed0.date.m ≠ m
+    · rw [if_pos cm] at h1
+      cases hb : addDelta seed0 0 0 (-7) with
+      | none => simp [hb] at h1
+      | some s =>
+        simp only [hb, Option.map_some, Option.some.injEq] at h1
+        subst h1
+        exact back seed0 s k0.1 k0.2 (by rw [if_pos cm]; exact hb)
+    · rw [if_neg cm] at h1; simp only [Option.some.injEq] at h1; subst h1; exact k0
+  have year1 : ((y : Int) + 1) = ((y + 1 : Nat) : Int) := by omega
+  have yearm : ((y : Int) - 1) = ((y - 1 : Nat) : Int) := by omega
+  cases hf : (if (noYear && cs.2.lt R) = true then
+      (computeDate cs.1 1 m ((y : Int) + 1)).bind fun d => if d.date.m ≠ m then addDelta d 0 0 (-7) else some d
+      else some cs.2) with
+  | none => rw [hf] at h; simp [ofOpt] at h
+  | some future =>
+  rw [hf] at h
+  simp only [Option.bind_some] at h
+  have kf : future.date.valid = true ∧ isoWeekdayOrd future.date.ord = 1 := by
+    by_cases cc : (noYear && cs.2.lt R) = true
+    · rw [if_pos cc] at hf
+      cases hc : computeDate cs.1 1 m ((y : Int) + 1) with
+      | none => rw [hc] at hf; simp at hf
+      | some d =>
+        rw [hc] at hf
+        simp only [Option.bind_some] at hf
+        have kd := cd cs.1 (y + 1) d (by omega) (by omega) (by rw [← year1]; exact hc)
+        exact back d future kd.1 kd.2 hf
+    · rw [if_neg cc] at hf; simp only [Option.some.injEq] at hf; subst hf; exact ks
+  cases hp : (if (noYear && R.le cs.2) = true then
+      (computeDate cs.1 1 m ((y : Int) - 1)).bind fun d => if d.date.m ≠ m then addDelta d 0 0 (-7) else some d
+      else some cs.2) with
+  | none => rw [hp] at h; simp [ofOpt] at h
+  | some past =>
+  rw [hp] at h
+  simp only [Option.bind_some] at h
+  have kp : past.date.valid = true ∧ isoWeekdayOrd past.date.ord = 1 := by
+    by_cases cc : (noYear && R.le cs.2) = true
+    · rw [if_pos cc] at hp
+      cases hc : computeDate cs.1 1 m ((y : Int) - 1) with
+      | none => rw [hc] at hp; simp at hp
+      | some d =>
+        rw [hc] at hp
+        simp only [Option.bind_some] at hp
+        have kd := cd cs.1 (y - 1) d (by omega) (by omega) (by rw [← yearm]; exact hc)
+        exact back d past kd.1 kd.2 hp
+    · rw [if_neg cc] at hp; simp only [Option.some.injEq] at hp; subst hp; exact ks
+  cases hfe : addDelta future 0 0 7 with
+  | none => simp [hfe, ofOpt] at h
+  | some fe0 =>
+  cases hpe : addDelta past 0 0 7 with
+  | none => simp [hfe, hpe, ofOpt] at h
+  | some pe0 =>
+  simp only [hfe, hpe, Option.bind_some, ofOpt, Option.getD_some, Res.ok.injEq] at h
+  obtain ⟨_, a1, a2, a3, a4⟩ := h
+  subst a1 a2 a3 a4
+  have x1 := plus7 _ _ kf.1 hfe
+  have x2 := plus7 _ _ kp.1 hpe
+  exact ⟨kf.1, x1.1, kp.1, x2.1, kf.2, kp.2, x1.2, x2.2⟩
+
+/-- Witnesses: (1) a relative month is read off `reference + datedelta(months=swift)`: "first week of next month" asked
+on 2020-01-31 answers **March** (`2020-03-W01`, 2020-03-02 ..), the month-end roll of `datedelta`; (2) a fifth week
+that does not exist falls back to the fourth Monday while the TIMEX keeps `W05`: "fifth week of February" 2020 →
+`XXXX-02-W05` with 2020-02-24. -/
+theorem week_of_month_witnesses :
+    weekOfMonth ⟨⟨2020, 1, 31⟩, 0⟩ 1 none 1 =
+      .ok ("2020-03-W01".toList.map Char.toNat) ⟨⟨2020, 3, 2⟩, 0⟩ ⟨⟨2020, 3, 9⟩, 0⟩ ⟨⟨2020, 3, 2⟩, 0⟩ ⟨⟨2020, 3, 9⟩, 0⟩ ∧
+    weekOfMonth ⟨⟨2020, 1, 29⟩, 52200⟩ 5 (some 2) 0 =
+      .ok ("XXXX-02-W05".toList.map Char.toNat) ⟨⟨2020, 2, 24⟩, 0⟩ ⟨⟨2020, 3, 2⟩, 0⟩ ⟨⟨2019, 2, 25⟩, 0⟩ ⟨⟨2019, 3, 4⟩, 0⟩ := by
+  refine ⟨?_, ?_⟩ <;> decide +kernel
+
+
 end RTV.Periods
